@@ -601,6 +601,16 @@ func (w *shsWorld) mutateStage1(src *shsMsg) ([]byte, string, bool) {
 									kind = "cert-mutation:twin-signature"
 								}
 							}
+						} else if tp.Chance(1, 2) {
+							// the issued signature followed by extra bytes, lengths fixed up so that the field still
+							// decodes: unchanged content under a signature encoding nobody issued (and a fingerprint no
+							// blocklist names)
+							ext := make([]byte, 1+tp.Choose(3))
+							tp.Bytes(ext)
+							if nc, ok := replaceSignature(c, i, sig, append(append([]byte(nil), sig...), ext...)); ok {
+								c = nc
+								kind = "cert-mutation:signature-extended"
+							}
 						} else {
 							c[i+tp.Choose(len(sig))] ^= 1
 							kind = "cert-mutation:signature-bit"
